@@ -726,6 +726,20 @@ func checkInnerArraysKept(c *Ctx, rule string, ev *tmpl.Evaluator) {
 		c.Check(ok, rule, fmt.Sprintf("sliceparambinder › continue #%d follows an append of the element", i+1), l.Tree.PosStr(ct.Pos), "the element is appended before the iteration is left",
 			"the rebuild loop is left with `continue` after `"+strings.TrimSpace(prev)+"`, without appending the element: null items of the array do not reach the handler")
 	}
+	// the same for the rebuild loop of a map: `continue` follows a store of the value under its key
+	if ml := linearOf(c, ev, "mapparamvalidator"); ml == nil {
+		c.Anchor(rule, "template mapparamvalidator", "not found")
+	} else {
+		storeRx := regexp.MustCompile(`⟦varname \.Child\.ValueExpression⟧R\[⟦\.KeyVar⟧\] = `)
+		for i, ct := range ml.Find(regexp.MustCompile(`(?m)^\s*continue\s*$`)) {
+			prev := strings.TrimRight(ml.Text[:ct.Start], " \t\n")
+			if j := strings.LastIndexByte(prev, '\n'); j >= 0 {
+				prev = prev[j+1:]
+			}
+			c.Check(storeRx.MatchString(prev), rule, fmt.Sprintf("mapparamvalidator › continue #%d follows a store of the value", i+1), ml.Tree.PosStr(ct.Pos), "the value is stored under its key before the iteration is left",
+				"the rebuild loop of a map is left with `continue` after `"+strings.TrimSpace(prev)+"`, without storing the value: null values of the map do not reach the handler")
+		}
+	}
 }
 
 // checkDefaultMedia: the runtime serves an operation that has no media type of its own with
